@@ -517,6 +517,58 @@ func newOrderArgument(p *Prog, v ssa.Value, checkName *ssa.Function) (bool, stri
 	}
 	sPath := accessPath(ia.X)
 	fn := v.Parent()
+	if ok, how := orderValidatedIn(p, fn, sPath, checkName); ok {
+		return true, how
+	}
+	// the two validation loops may have been moved into a helper (resolveColumnOrder(data, config) error) that
+	// is called before the columns are built and whose error leaves the function
+	suffix := sPath
+	if i := strings.LastIndex(sPath, "."); i >= 0 {
+		suffix = sPath[i:]
+	}
+	var how string
+	eachInstr(fn, func(in ssa.Instruction) {
+		call, ok := in.(*ssa.Call)
+		if !ok || how != "" {
+			return
+		}
+		h := call.Call.StaticCallee()
+		if h == nil || h.Blocks == nil || h.Pkg != fn.Pkg || errResultIndex(h.Signature) < 0 {
+			return
+		}
+		// the error is tested and its non-nil edge leaves before the name is used
+		guarded := false
+		for _, g := range dominatingGuards(v.(ssa.Instruction).Block()) {
+			if b, ok := g.Cond.(*ssa.BinOp); ok && (b.X == ssa.Value(call) || b.Y == ssa.Value(call)) {
+				if b.Op == token.NEQ && !g.Val || b.Op == token.EQL && g.Val {
+					guarded = true
+				}
+			}
+		}
+		if !guarded {
+			return
+		}
+		// some slice path of the helper with the same field suffix, rooted at a parameter bound to the same object
+		for i, prm := range h.Params {
+			if i >= len(call.Call.Args) {
+				continue
+			}
+			hp := accessPath(prm) + suffix
+			if len(sPath) >= len(suffix) && accessPath(call.Call.Args[i])+suffix == sPath {
+				if ok, hw := orderValidatedIn(p, h, hp, checkName); ok {
+					how = hw + " (in " + h.Name() + ", whose error leaves the function)"
+				}
+			}
+		}
+	})
+	if how != "" {
+		return true, how
+	}
+	return false, ""
+}
+
+// orderValidatedIn: fn holds the two loops that validate the order list at access path sPath.
+func orderValidatedIn(p *Prog, fn *ssa.Function, sPath string, checkName *ssa.Function) (bool, string) {
 	var mapPath string
 	// loop 1: for _, name := range S { if _, ok := M[name]; !ok { return err } }
 	eachInstr(fn, func(in ssa.Instruction) {
